@@ -81,7 +81,9 @@ def passive_T(rng, k):
     kind = rng.choice(["general", "general", "unitary", "diagonal"])
     sv = np.ones(k) if kind == "unitary" else np.round(rs.uniform(0.2, 1.0, size=k), 3)
     T = np.diag(np.sqrt(sv)).astype(complex) if kind == "diagonal" else unitary() @ np.diag(sv) @ unitary()
-    return [np.round(T.real, 6).tolist(), np.round(T.imag, 6).tolist()]
+    # full precision: rounding the entries would push singular values above 1 by ~1e-6 (a "lossy" map that creates photons:
+    # false alarm of C07 seed 31, photon number 0.499937503 -> 0.499937798)
+    return [T.real.tolist(), T.imag.tolist()]
 
 
 def random_cmd(rng, n, names, dagger_prob=0.25, exact=False):
